@@ -639,7 +639,11 @@ theorem step_conserved (cfg : Cfg) (w : World) (a : Action) (hc : Conserved w) :
         | none => exact awaitFiber_conserved _ _ (schedule_conserved _ _ _ (hpc.1 w1 none hp))
         | some x => exact awaitFiber_conserved _ _ (schedule_conserved _ _ _ (hpc.1 w1 (some x) hp))
     | select cls =>
+      cases cls with
+      | nil => exact hc
+      | cons cl0 cls0 =>
       simp only []
+      generalize cl0 :: cls0 = cls
       cases hi : choiceImmediate cfg w f cls with
       | none => exact awaitFiber_conserved _ _ (choiceRegister_conserved cfg f cls w hc)
       | some r => exact choiceImmediate_conserved cfg f cls w r.1 r.2 hi hc
